@@ -1228,6 +1228,219 @@ static void run_ext_family(const std::string& name, const std::string& desc, con
     R->bound("path.ext." + name, desc + "; simple paths x widths {1, 2} x {one element, two elements +1.5/-1.5} x extended(start, end) with start, end in {0, hw, 0.35, -0.5} (16 pairs) x {gds, oas}: source outline, record centre line/width, effective extensions, region", ok, (int64_t)spines.size() * 64);
 }
 
+// ----------------------------------------------------------------------- Manhattan / octangular / general centre lines
+// OASIS stores a PATH centre line as a point list of type 0/1 (alternating Manhattan, H- or V-first), 2 (Manhattan),
+// 3 (octangular) or 4/5 (general).  Explicit spine families make every type occur for OPEN lists with both parities:
+//   * every non-reversing sequence of 1..5 axis-parallel steps (includes repeated directions = collinear segments),
+//   * every strictly alternating H/V sequence of 6 and 7 steps (staircases, spirals, both first directions),
+//   * 8-direction sequences of 1..3 steps with a diagonal, 45-degree alternations (each step turned +-45 degrees)
+//     of 4 and 5 steps, and 2-step sequences starting with a (2,1)-type step (general lists).
+// Simple paths, width 1, one element / one offset element / two elements, end flush (thorough: also extended);
+// written with write_gds / write_oas, re-read: same centre line point for point, same width/end, same region.
+struct StepSpine { std::vector<V> pts; std::string kind; };
+static void manh_spines(bool thorough, std::vector<StepSpine>& out) {
+    const int AX[4][2] = {{1, 0}, {0, 1}, {-1, 0}, {0, -1}};
+    const int D8[8][2] = {{1, 0}, {1, 1}, {0, 1}, {-1, 1}, {-1, 0}, {-1, -1}, {0, -1}, {1, -1}};
+    auto emit = [&](const std::vector<std::pair<int, int>>& steps, int scheme) {
+        StepSpine sp;
+        double x = 0, y = 0;
+        sp.pts.push_back(V{0, 0});
+        bool all_axis = true, all_oct = true, alternating = true;
+        for (size_t i = 0; i < steps.size(); i++) {
+            double len = scheme == 0 ? 8.0 : 4.0 * (1 + (int)i / 2);
+            int dx = steps[i].first, dy = steps[i].second;
+            x += len * dx; y += len * dy;
+            sp.pts.push_back(V{x, y});
+            bool axis = dx == 0 || dy == 0, oct = axis || abs(dx) == abs(dy);
+            all_axis &= axis; all_oct &= oct;
+            if (i > 0) { bool ph = steps[i - 1].second == 0, h = dy == 0; if (ph == h) alternating = false; }
+        }
+        sp.kind = !all_oct ? "general" : !all_axis ? "octangular" : (alternating ? (steps[0].second == 0 ? "alternating-H-first" : "alternating-V-first") : "manhattan");
+        out.push_back(sp);
+    };
+    for (int scheme = 0; scheme < (thorough ? 2 : 1); scheme++) {
+        // axis-parallel, non-reversing, 1..5 steps
+        for (int k = 1; k <= 5; k++) {
+            int total = 1;
+            for (int i = 0; i < k; i++) total *= 4;
+            for (int c = 0; c < total; c++) {
+                std::vector<std::pair<int, int>> st;
+                int t = c;
+                bool ok = true;
+                for (int i = 0; i < k; i++) {
+                    int d = t % 4; t /= 4;
+                    if (i > 0 && AX[d][0] == -st.back().first && AX[d][1] == -st.back().second) ok = false;
+                    st.push_back({AX[d][0], AX[d][1]});
+                }
+                if (ok) emit(st, scheme);
+            }
+        }
+        // strictly alternating, 6 and 7 steps
+        for (int k = 6; k <= 7; k++)
+            for (int first = 0; first < 2; first++)
+                for (int signs = 0; signs < (1 << k); signs++) {
+                    std::vector<std::pair<int, int>> st;
+                    for (int i = 0; i < k; i++) {
+                        int sg = (signs >> i & 1) ? 1 : -1;
+                        bool h = (i % 2 == 0) == (first == 0);
+                        st.push_back(h ? std::make_pair(sg, 0) : std::make_pair(0, sg));
+                    }
+                    emit(st, scheme);
+                }
+    }
+    // 8 directions, 1..3 steps, at least one diagonal
+    for (int k = 1; k <= 3; k++) {
+        int total = 1;
+        for (int i = 0; i < k; i++) total *= 8;
+        for (int c = 0; c < total; c++) {
+            std::vector<std::pair<int, int>> st;
+            int t = c;
+            bool ok = true, diag = false;
+            for (int i = 0; i < k; i++) {
+                int d = t % 8; t /= 8;
+                if (i > 0 && D8[d][0] == -st.back().first && D8[d][1] == -st.back().second) ok = false;
+                if (D8[d][0] && D8[d][1]) diag = true;
+                st.push_back({D8[d][0], D8[d][1]});
+            }
+            if (ok && diag) emit(st, 0);
+        }
+    }
+    // 45-degree alternations, 4 and 5 steps
+    for (int k = 4; k <= 5; k++)
+        for (int d0 = 0; d0 < 8; d0++)
+            for (int turns = 0; turns < (1 << (k - 1)); turns++) {
+                std::vector<std::pair<int, int>> st;
+                int d = d0;
+                st.push_back({D8[d][0], D8[d][1]});
+                for (int i = 0; i < k - 1; i++) { d = (d + ((turns >> i & 1) ? 1 : 7)) % 8; st.push_back({D8[d][0], D8[d][1]}); }
+                emit(st, 0);
+            }
+    // general: a (2,1)-type step followed by one of the 8 directions
+    for (int a = 0; a < 8; a++) {
+        int kx = (a & 1) ? 2 : 1, ky = (a & 1) ? 1 : 2;
+        if (a & 2) kx = -kx;
+        if (a & 4) ky = -ky;
+        for (int d = 0; d < 8; d++) {
+            if (D8[d][0] * kx + D8[d][1] * ky < 0 && D8[d][0] * ky - D8[d][1] * kx == 0) continue;
+            emit({{kx, ky}, {D8[d][0], D8[d][1]}}, 0);
+        }
+        emit({{kx, ky}}, 0);
+    }
+}
+static void run_manh_member(const StepSpine& ss, int ocfg, int end, double h, bool verbose) {
+    const std::vector<V>& sp = ss.pts;
+    const int n = (int)sp.size(), nel = group_nel(ocfg), nseg = n - 1;
+    auto mjson = [&]() { return jobj({{"spine", jpts(sp)}, {"centre_line_kind", jstr(ss.kind)}, {"segments", jint(nseg)}, {"width", jstr("1")}, {"offsets", jstr(OFF_NAME[ocfg])}, {"end", jstr(END_NAME[end])}, {"simple_path", jbool(true)}}); };
+    std::string replay = fmt("sub=pathmanh pts=%s oc=%d end=%d kind=%s", pts_str(sp).c_str(), ocfg, end, ss.kind.c_str());
+    std::vector<c07::Oracle> orc(nel);
+    bool all_ok = true;
+    for (int el = 0; el < nel; el++) {
+        c07::ElementInput in;
+        in.spine = sp;
+        in.hw.assign(n, 0.5);
+        in.off.assign(n, group_off(ocfg, el));
+        in.ends = end_variants(0.5, 0.5);
+        orc[el] = c07::build(in);  // the corner points C are valid even when the predicate rejects the member
+        if (orc[el].status != c07::OK) all_ok = false;
+    }
+    std::vector<std::vector<V>> spoly(nel);
+    {
+        FlexPath* fp = make_path(sp, 0, ocfg, 0, c07::J_NATURAL, end, true);
+        Array<Polygon*> res = {};
+        ErrorCode ec = fp->to_polygons(false, 0, res);
+        bool ok = ec == ErrorCode::NoError && res.count == (uint64_t)nel;
+        for (int el = 0; ok && el < nel; el++)
+            for (uint64_t k = 0; k < res[el]->point_array.count; k++) spoly[el].push_back(V{res[el]->point_array[k].x, res[el]->point_array[k].y});
+        for (uint64_t k = 0; k < res.count; k++) { res[k]->clear(); free_allocation(res[k]); }
+        res.clear();
+        free_path(fp);
+        if (!ok) { R->violation("path.gds", "manh:no-polygon", {{"segments", jint(nseg)}}, mjson(), "to_polygons failed", replay); return; }
+    }
+    for (int fmt_i = 0; fmt_i < 2; fmt_i++) {
+        const bool oas = fmt_i == 1;
+        const std::string sub = oas ? "path.oas" : "path.gds";
+        auto tags = [&](int el, const char* what) {
+            double off = group_off(ocfg, el);
+            JFields t = {{"format", jstr(oas ? "oas" : "gds")}, {"manh_family", jbool(true)}, {"centre_line_kind", jstr(ss.kind)}, {"segments", jint(nseg)}, {"parity", jstr(nseg % 2 ? "odd" : "even")},
+                         {"elements", jint(nel)}, {"element", jint(el)}, {"offset_sign", jstr(off > 0 ? "+" : off < 0 ? "-" : "0")}, {"end", jstr(END_NAME[end])}, {"what", jstr(what)}};
+            return t;
+        };
+        auto cname = [&](const char* what) { return fmt("manh:%s:%s:%s", what, ss.kind.c_str(), nseg % 2 ? "odd" : "even"); };
+        std::vector<FlexPath*> paths;
+        paths.push_back(make_path(sp, 0, ocfg, 0, c07::J_NATURAL, end, true));
+        std::string file = R->scratch + fmt("/m%d.%s", (int)getpid(), oas ? "oas" : "gds");
+        if (!write_library(paths, file, oas)) { R->violation(sub, cname("write-error"), tags(0, "write"), mjson(), "writer returned an error", replay); continue; }
+        std::vector<PathRecord> recs;
+        std::string err;
+        bool ok = decode_paths(file, oas, recs, err);
+        unlink(file.c_str());
+        if (!ok || recs.size() != (size_t)nel) { R->violation(sub, cname("record-count"), tags(0, "count"), mjson(), fmt("expected %d PATH records, re-read %zu (%s)", nel, recs.size(), err.c_str()), replay); continue; }
+        for (int el = 0; el < nel; el++) {
+            const PathRecord& r = recs[el];
+            R->count("cases");
+            R->count("nontrivial");
+            R->count("path_manh_records_checked");
+            R->count("path_manh_records:" + ss.kind + (nseg % 2 ? ":odd" : ":even"));
+            if (verbose) fprintf(stderr, " %s element %d record: hw %.4f end %s centre %s\n", sub.c_str(), el, r.hw, r.end_name.c_str(), pts_str(r.pts).c_str());
+            if (r.pts.size() != (size_t)n) {
+                R->violation(sub, cname("point-count"), tags(el, "point-count"), mjson(), fmt("PATH record re-read with %zu centre-line points, element centre line has %d; record: %s", r.pts.size(), n, pts_str(r.pts).c_str()), replay);
+                continue;
+            }
+            int first_bad = -1;
+            for (int i = 0; i < n && first_bad < 0; i++) if (c07::norm(r.pts[i] - orc[el].C[i]) > 1.5 * GRID) first_bad = i;
+            if (first_bad >= 0) {
+                R->violation(sub, cname("point"), tags(el, "point"), mjson(), fmt("centre-line point %d re-read as (%.4f,%.4f), expected (%.4f,%.4f)", first_bad, r.pts[first_bad].x, r.pts[first_bad].y, orc[el].C[first_bad].x, orc[el].C[first_bad].y), replay);
+                continue;
+            }
+            bool end_ok = fabs(r.hw - 0.5) <= GRID && !r.round && fabs(r.ext_s - (end == 2 ? 1 : 0)) <= GRID && fabs(r.ext_e - (end == 2 ? 0.5 : 0)) <= GRID;
+            if (!end_ok) { R->violation(sub, cname("width-or-end"), tags(el, "width-or-end"), mjson(), fmt("record hw %.4f end %s extensions %.4f/%.4f", r.hw, r.end_name.c_str(), r.ext_s, r.ext_e), replay); continue; }
+            if (!all_ok) { R->count("path_manh_region_skipped_degenerate"); continue; }
+            c07::ElementInput rin;
+            rin.raw = true;
+            rin.spine = r.pts;
+            rin.hw.assign(n, r.hw);
+            rin.off.assign(n, 0.0);
+            rin.ends.assign(1, c07::EndVar{false, false, r.ext_s, r.ext_e});
+            c07::Oracle ro = c07::build(rin);
+            Grid g = make_grid(ro.bx0, ro.by0, ro.bx1, ro.by1, h);
+            std::vector<uint8_t> cov;
+            coverage(spoly[el], g, cov);
+            int bad_in = 0, bad_out = 0;
+            V f{0, 0};
+            for (int j = 0; j < g.ny; j++)
+                for (int i = 0; i < g.nx; i++) {
+                    V q = g.at(i, j);
+                    c07::Cls cl = c07::classify(ro, q, G_REC, 1);
+                    bool mc = cl.mc & 1, mn = (cl.farE & 1) && (cl.farJ >> c07::J_MITER & 1), cv = cov[(size_t)j * g.nx + i];
+                    if (mc && !cv) { if (!bad_in && !bad_out) f = q; bad_in++; }
+                    if (mn && cv) { if (!bad_in && !bad_out) f = q; bad_out++; }
+                }
+            R->count("path_manh_region_comparisons");
+            if (bad_in || bad_out)
+                R->violation(sub, cname("region"), tags(el, "region"), mjson(), fmt("%d sample(s) inside the record's region not covered by the source polygon, %d covered outside it; first (%.4f,%.4f)", bad_in, bad_out, f.x, f.y), replay);
+        }
+    }
+}
+static void run_manh(bool thorough) {
+    if (getenv("C07_FAM") && std::string("manh").find(getenv("C07_FAM")) == std::string::npos) return;  // development aid
+    std::vector<StepSpine> sps;
+    manh_spines(thorough, sps);
+    const std::vector<int> ocs = thorough ? std::vector<int>{0, 1, 2, 3} : std::vector<int>{0, 3};
+    const std::vector<int> ends = thorough ? std::vector<int>{0, 2} : std::vector<int>{0};
+    const double h = thorough ? 0.25 : 0.5;
+    auto body = [&](int64_t i) { for (int oc : ocs) for (int e : ends) run_manh_member(sps[i], oc, e, h, false); };
+    auto describe = [&](int64_t i) { return jobj({{"spine", jpts(sps[i].pts)}, {"centre_line_kind", jstr(sps[i].kind)}}); };
+    auto replay_of = [&](int64_t i) { return fmt("sub=pathmanh pts=%s oc=3 end=0 kind=%s", pts_str(sps[i].pts).c_str(), sps[i].kind.c_str()); };
+    bool ok = parallel_for(*R, (int64_t)sps.size(), body, describe, replay_of, PFOptions{60, "path.oas", true});
+    std::map<std::string, int> kinds;
+    for (auto& sp : sps) kinds[sp.kind + ((sp.pts.size() - 1) % 2 ? ":odd" : ":even")]++;
+    std::string ks;
+    for (auto& kv : kinds) ks += fmt("%s%s x%d", ks.empty() ? "" : ", ", kv.first.c_str(), kv.second);
+    if (!sps.empty()) R->sample("path.oas", jobj({{"spine", jpts(sps[sps.size() / 3].pts)}, {"centre_line_kind", jstr(sps[sps.size() / 3].kind)}}));
+    R->bound("path.manh", fmt("simple paths on %zu explicit centre lines (%s; step 8%s) x offsets {%s} x end {%s} x {gds, oas}: record centre line point for point, width/end, region (spacing %.3g)", sps.size(), ks.c_str(),
+                              thorough ? " and growing 4,4,8,8,12,12,16" : "", thorough ? "0, +1.5, -1.5, two elements" : "0, two elements", thorough ? "flush, extended(1,0.5)" : "flush", h), ok, (int64_t)sps.size() * (int64_t)ocs.size() * (int64_t)ends.size() * 2);
+}
+
 // ----------------------------------------------------------------------- long simple paths (multi-record XY lists)
 // GDSII XY records hold at most 8190 points, so FlexPath::to_gds splits the centre line of a long simple path
 // over several records.  Members: zig-zag spine (0,0),(4,4),(8,0),(12,4),... with n points built by init +
@@ -1419,6 +1632,11 @@ int main(int argc, char** argv) {
                 if (!run.rarg("w").empty() && (atoi(run.rarg("w").c_str()) != w || atoi(run.rarg("oc").c_str()) != oc)) continue;
                 run_ext_group(sp, w, oc, true);
             }
+        } else if (sub == "pathmanh") {
+            StepSpine ss;
+            ss.pts = parse_pts(run.rarg("pts"));
+            ss.kind = run.rarg("kind");
+            run_manh_member(ss, atoi(run.rarg("oc").c_str()), atoi(run.rarg("end").c_str()), 0.25, true);
         } else if (sub == "pathlong") {
             run_long_member(atoi(run.rarg("n").c_str()), atoi(run.rarg("oc").c_str()), atoi(run.rarg("end").c_str()), true);
         } else {
@@ -1460,6 +1678,7 @@ int main(int argc, char** argv) {
     opt.do_c = !getenv("C07_NOC");
     run_family("2pt", "every 2-point polyline of the 5x5 lattice scaled by 4, up to translation", s2, opt, 60);
     if (opt.do_c && !getenv("C07_FAM")) run_long(T);
+    if (opt.do_c) run_manh(T);
     if (opt.do_c) {
         std::vector<std::vector<V>> e3;
         enum_spines(3, vec_set(T ? 1 : 3), e3);
